@@ -6,6 +6,7 @@ prove       RModel.Props.C06 (filterCompatible facts over all texts, resolver me
             coercion lemmas, the composed same-style theorem under its guard, witnesses)
 correspond  `rewriteline` = real plan_operation (real build_styles_list) + apply_plan on a one-line file  vs
             LinePipeline.rewriteLine;  `filtercompat`, `resolve`, `stylelist` on hostile texts / option sets
+            `rewritefile` / `resolvectx` (harness only): context-heavy multi-line files, oracle-judged
 oracle      independent: expected line = d1 + gen.render(style, replacement words) + d2 when the occurrence style is enabled
             under the documented option semantics, unchanged otherwise; ambiguity clause on flat / single-word occurrences.
             Exhaustive over (term pair, input styles) combos x 12 visible styles x 11 delimiter contexts x 30 option sets.
@@ -298,13 +299,165 @@ def cli_rename(args, line):
             return rc, fh.read(), (out + err).decode("utf-8", "replace")[-400:]
 
 
+# ---------------------------------------------------------------------------------------------------------------------
+# context-heavy files: the resolver's language / file-context heuristics get something to say
+
+CTX_DOMINANT = ["snake", "camel", "pascal", "kebab", "screaming_snake"]
+CTX_EXT = ["txt", "rs", "py", "js", "rb", "go", "css", "yaml", "sh", "java", "html", "json", "c", "md"]
+CTX_EXTRA_WORDS = ["amber", "birch", "cedar", "maple", "olive", "hazel", "kappa", "sigma", "theta", "omega"]
+# what precedes the occurrence on its line (language modules look at the trimmed preceding text)
+CTX_PRE = ["", "marker = (", "let ", "const ", "class ", "def ", "fn ", "struct ", "function ", "export ", "var ", "key: ",
+           "  - ", "type ", "func ", "module ", "@", "$", ".", "#", "import ", "<div class=\"", "public static final int "]
+CTX_POST = ["", ")", " = 1", "()", ";", ":", "\"", " {"]
+
+
+def ctx_file(rng, swords, rwords, occurrences, dominant, share):
+    """file content: 60..120 multi-word identifiers, `share` of them in the dominant style, the occurrences on lines of
+    their own at random places.  Returns (content, [(line number, col, occurrence text)])"""
+    words = [w for w in gen.VOCAB + CTX_EXTRA_WORDS if w not in swords and w not in rwords]
+    n = rng.randint(60, 120)
+    idents = []
+    for i in range(n):
+        st = dominant if i < share * n else rng.choice([x for x in CTX_DOMINANT if x != dominant])
+        idents.append(gen.render(st, rng.sample(words, rng.randint(2, 3))))
+    rng.shuffle(idents)
+    lines = [f"{ident} = {i}" for i, ident in enumerate(idents)]
+    occ_lines = []
+    for occ in occurrences:
+        pre = rng.choice(CTX_PRE)
+        post = rng.choice(CTX_POST)
+        if post == ")" and "(" not in pre:
+            post = ""
+        occ_lines.append((pre, occ, post))
+    places = sorted(rng.sample(range(len(lines) + 1), len(occ_lines)))
+    where = []
+    for k, (pos, (pre, occ, post)) in enumerate(zip(places, occ_lines)):
+        lines.insert(pos + k, pre + occ + post)
+        where.append((pos + k + 1, len(pre), occ))
+    return "\n".join(lines) + "\n", where
+
+
+def keeps_case(old, new):
+    if starts_upper(old) != starts_upper(new) or starts_lower(old) != starts_lower(new):
+        return "first-letter case changed"
+    if all_upper(old) and not all_upper(new):
+        return "all-upper-case match lost its case"
+    return None
+
+
+def parse_file_out(out):
+    f = out.split()
+    if len(f) < 4 or f[0] != "f":
+        return None, None, []
+    hunks = [(int(l), int(c), unhex(a).decode("utf-8", "replace"), unhex(b).decode("utf-8", "replace"))
+             for l, c, a, b in zip(f[4::4], f[5::4], f[6::4], f[7::4])]
+    return f[1], unhex(f[2]).decode("utf-8", "replace"), hunks
+
+
+def run_context_family(ctx):
+    """clause 3 under context heuristics: every rewritten occurrence keeps first-letter case and all-caps-ness, and the style
+    the resolver returns for an ambiguous match (full context) is compatible with the match"""
+    rng = ctx.rng
+    files = []
+    term_sets = [(["foo", "bar"], ["baz", "qux"]), (["tiger", "lemon"], ["nova", "widget"])]
+    if ctx.thorough:
+        term_sets.append((["gadget", "delta"], ["alpha"]))
+    for S, R in term_sets:
+        flat = [gen.render("lower_flat", S), gen.render("upper_flat", S)]
+        single = [S[0], S[0].capitalize(), S[0].upper()]
+        plans = [  # (typed search, typed replace, option set, occurrences)
+            (gen.render("snake", S), gen.render("snake", R), "i=lower_flat,upper_flat", flat * 2),
+            (gen.render("camel", S), gen.render("pascal", R), "o=lower_flat,upper_flat,snake,pascal", flat * 2),
+            (S[0], gen.render("snake", R), "default", single * 2),
+            (S[0].capitalize(), gen.render("camel", R), "default", single * 2),
+        ]
+        for dominant in CTX_DOMINANT:
+            for ext in CTX_EXT:
+                for ts, tr, opts, occs in plans:
+                    for _ in range(2 if ctx.thorough else 1):
+                        share = rng.choice([0.62, 0.75, 0.9, 1.0])
+                        rw = R if not (ts == S[0] or ts == S[0].capitalize()) else R
+                        content, where = ctx_file(rng, S, R, occs, dominant, share)
+                        files.append({"name": "notes." + ext, "content": content, "search": ts, "replace": tr, "opts": opts,
+                                      "dominant": dominant, "share": share, "where": where, "rwords": rw})
+    reqs = [f"rewritefile {hexs(c['name'])} {hexs(c['content'])} {hexs(c['search'])} {hexs(c['replace'])} {c['opts']} p1"
+            for c in files]
+    outs = run_parallel(common.HARNESS_BIN, reqs)
+    creqs, cmeta = [], []
+    for c, req, out in zip(files, reqs, outs):
+        ctx.case(("ctxfile", req))
+        status, new, hunks = parse_file_out(out)
+        short = {k: c[k] for k in ("name", "search", "replace", "opts", "dominant", "share")}
+        if status != "ok":
+            ctx.violation("input", {**short, "content": c["content"], "request": req}, expected="plan and apply succeed",
+                          observed=out[:300], note="plan or apply failed on a context-heavy file")
+            return False
+        by_pos = {(l, col): (old, rep) for l, col, old, rep in hunks}
+        old_lines = c["content"].split("\n")
+        for l, col, occ in c["where"]:
+            h = by_pos.get((l, col))
+            ctx.count("context:" + ("rewritten" if h else "unchanged"))
+            if h:
+                old, rep = h
+                why = keeps_case(old, rep)
+                flat_new = "".join(ch for ch in rep if ch not in SEPS).lower()
+                if why is None and old == occ and flat_new != "".join(c["rwords"]):
+                    why = "not a rendering of the replacement term"
+                if why:
+                    ctx.violation("input", {**short, "line": old_lines[l - 1], "line_number": l, "content": c["content"],
+                                            "request": req},
+                                  expected="first-letter case and all-caps-ness of the occurrence preserved",
+                                  observed={"occurrence": old, "rewritten_as": rep},
+                                  note=f"ambiguity clause in a {c['dominant']}-dominated {c['name']} "
+                                       f"({int(c['share'] * 100)} % of the identifiers): " + why)
+                    return False
+            # the resolver contract on this very context
+            creqs.append(f"resolvectx {hexs(c['name'])} {hexs(c['content'])} {hexs(old_lines[l - 1])} {col} {hexs(occ)} "
+                         f"{hexs(c['replace'])}")
+            creqs.append(f"filtercompat {hexs(occ)} all")
+            cmeta.append((short, old_lines[l - 1], occ, c["content"]))
+        # nothing but the occurrences may change
+        for l, col, old, rep in hunks:
+            if (l, col) not in {(a, b) for a, b, _ in c["where"]}:
+                ctx.violation("input", {**short, "line": old_lines[l - 1], "content": c["content"], "request": req},
+                              expected="only the occurrences of the term change", observed={"hunk": [l, col, old, rep]},
+                              note="a filler identifier of a context-heavy file was rewritten")
+                return False
+    if ctx.thorough or True:
+        # resolver contract: sample (every 3rd in quick) — each request carries the whole file
+        step = 1 if ctx.thorough else 3
+        pick = [k for k in range(0, len(cmeta), step)]
+        sub = []
+        for k in pick:
+            sub += creqs[2 * k:2 * k + 2]
+        res = run_parallel(common.HARNESS_BIN, sub)
+        for j, k in enumerate(pick):
+            chosen = res[2 * j].split()[1]
+            comp = res[2 * j + 1].split()[1]
+            ctx.case(("resolvectx", sub[2 * j]))
+            ctx.count("context:resolve")
+            ctx.count("context:resolved-to-dominant" if chosen == cmeta[k][0]["dominant"] else "context:resolved-otherwise")
+            if comp != "-" and len(comp.split(",")) > 1 and chosen not in comp.split(","):
+                short, line, occ, content = cmeta[k]
+                ctx.violation("input", {**short, "op": "resolve_with_styles(full context)", "line": line, "matched": occ,
+                                        "content": content, "request": sub[2 * j]},
+                              expected={"member of": comp}, observed=chosen,
+                              note="the resolver, given the file and line context, chose a style the matched text cannot be "
+                                   "written in (contract HeurOk of ambiguous_keeps_case)")
+                return False
+    ctx.sample({"context_file": files[0]["name"], "dominant": files[0]["dominant"], "first_lines": files[0]["content"][:160]})
+    return True
+
+
 def run(ctx):
     opt_sets = option_sets()
     ctx.cov["rule"] = (
         "rewriteline requests: (term pair, typed styles) combos [thorough: 12, one per boundary-visible input style of the search "
         "term; quick: the first 2 + one seed-chosen] x 12 boundary-visible occurrence styles x 11 delimiter contexts x 30 option "
         "sets (default, --only-styles each of 14, --exclude-styles each of 11, 3 --include-styles sets, exclude-all), exhaustive; "
-        "ambiguity clause: flat occurrences and single-word search terms x option sets; filtercompat/resolve on 1500 (quick 500) "
+        "ambiguity clause: flat occurrences and single-word search terms x option sets, and the same occurrences inside context-heavy "
+        "files (60..120 identifiers, 62..100 % in one of 5 dominant styles) x 14 extensions x 23 preceding contexts through the real "
+        "pipeline + the resolver contract on those contexts; filtercompat/resolve on 1500 (quick 500) "
         "hostile texts; stylelist on all option sets + 200 random option sets. non-trivial = the line contains an occurrence; "
         "distinct = distinct request line")
     ctx.cov["exhaustive"] = True
@@ -439,6 +592,10 @@ def run(ctx):
                           note="ambiguity clause: " + why)
             return
 
+    # ---- ambiguity clause in context-heavy files (language heuristics, file-context heuristic) ------------------------
+    if not run_context_family(ctx):
+        return
+
     # ---- filterCompatible / resolver on hostile texts (ties the tables the theorems of clause 3 are about) ----------
     atoms = ["foo", "Bar", "BAZ", "x", "A", "API", "api", "Api", "URL", "Id", "ID", "2", "42", "_", "-", ".", " ", "Qux", "qUX",
              "HTTPS", "k8s", "s3", "OAuth", "e", "I"]   # ASCII only: the model covers ASCII exactly
@@ -522,6 +679,28 @@ def replay(ctx, path):
     ok, msg = common.cargo_build()
     if not ok:
         ctx.broke("build", "cargo", msg)
+        return
+    req0 = case.get("request", "")
+    if req0.startswith("rewritefile "):
+        out = common.run_impl([req0])[0]
+        status, new, hunks = parse_file_out(out)
+        bad = [(l, c, a, b, keeps_case(a, b)) for l, c, a, b in hunks if keeps_case(a, b)]
+        print(json.dumps({"file": case.get("name"), "opts": case.get("opts"), "status": status,
+                          "hunks": hunks, "failing": bad}, indent=1)[:3000])
+        if status != "ok" or bad:
+            ctx.violation("input", case, expected="first-letter case and all-caps-ness of every occurrence preserved",
+                          observed={"status": status, "failing_hunks": bad}, note="replayed context-heavy file fails")
+        else:
+            print("property holds on this case")
+        return
+    if req0.startswith("resolvectx "):
+        chosen = common.run_impl([req0])[0].split()[1]
+        comp = common.run_impl([f"filtercompat {hexs(case['matched'])} all"])[0].split()[1]
+        print(json.dumps({"chosen": chosen, "compatible": comp}))
+        if comp != "-" and len(comp.split(",")) > 1 and chosen not in comp.split(","):
+            ctx.violation("input", case, expected={"member of": comp}, observed=chosen, note="replayed resolver context fails")
+        else:
+            print("property holds on this case")
         return
     common.lean_build([])
     forms = Forms()
